@@ -24,7 +24,7 @@ def fr(x):
 
 def gen_lang(rng):
     n = rng.choice([0, 1, 2, 3, 4, 5, 6, 9])
-    pool = [(1000000 * a, 1000000 * a + d) for a in range(1, 4) for d in (500000, 1500000)]
+    pool = [(1000000 * a, 1000000 * a + d) for a in range(0, 4) for d in (500000, 1500000)]      # instant 0 included
     caps = []
     nid = [1]
     cur = rng.choice(pool)
